@@ -29,6 +29,7 @@ ReprFails(e) ==
 
 Fails(e) == CASE e.ev = "prefix" -> PrefixFails(e)
               [] e.ev = "repr" -> ReprFails(e)
+              [] e.ev = "hang" -> <<e.prop \o ".hang">>    \* a call that never returned (recorded by the watchdog of the harness)
               [] OTHER -> <<"unknown-event">>
 Init == l = 1 /\ nfail = 0
 Next == /\ l <= Len(Tr)
